@@ -77,10 +77,25 @@ ASSUMPTIONS = [
     "copied statement is recognised by its class and its SrcInfo object (every statement of a generated procedure has "
     "its own)",
     "C06 primitives, reading of the property where the documentation is silent about the statement a primitive "
-    "consumes (listed per contract as `may be reported invalid`): InvalidCursorError or any image (copy) of the same "
-    "statement is accepted, never another statement.  Block cursors that contain a statement the primitive touches "
-    "(or one above / below it) must resolve and contain nothing foreign; only blocks of untouched statements must "
-    "forward to exactly their statements",
+    "consumes: InvalidCursorError or any image (copy) of the same statement is accepted, never another statement.  "
+    "This weak reading is used for: unroll_loop (the loop and its body), lift_scope (the enclosing scope, which is "
+    "duplicated / rebuilt, and the statements of its branch that does not hold the lifted statement: they are "
+    "re-inserted as values), specialize (the statements of the block: copied into every branch), split_write (the "
+    "statement: documented as invalidated), merge_writes (both statements), unroll_buffer (the allocation), fission of "
+    "an if (either copy).  Everything else that has an image in the result must forward to it: siblings, statements "
+    "of moved / copied bodies, rebuilt ancestors, statements whose accesses are rewritten",
+    "C06 primitives, blocks: a block cursor that contains a statement the primitive is applied to (or one above / "
+    "below it) must resolve and contain nothing foreign (a statement the primitive relocated or created may stand "
+    "strictly inside it - the reading of contracts/c06_forwarding.py for moves and inserts); blocks of untouched "
+    "statements must forward to exactly their statements; documented block forwardings (fuse, mult_loops, divide_loop "
+    "body, specialize, split_write, replace, extract_subproc) are stated as their own clause",
+    "C06 primitives: only the outcomes of a Check_* call after which the primitive goes on are explored (a failure "
+    "that is an immediate SchedulingError leaves nothing to forward); a primitive that finds nothing to do returns P "
+    "itself with the identity function - the clause on cursors of other procedures is then not demanded (observation: "
+    "such a forwarding function accepts every cursor)",
+    "C06 primitives: DoSimplify / _DoNormalize are run on procedures with concrete literals, their expression "
+    "simplifier (map_e: C12) natively; the forwarding checked for simplify is the composition of the two provenance "
+    "steps (normalise, simplify) as Procedure.forward applies it",
 ]
 
 
@@ -127,7 +142,10 @@ def install(c, spec, checks=(), both=(), once=()):
             if r.exc is not None:
                 return True
             if not hasattr(r, "stands_for"):
-                r.stands_for = spec.stands_for(a, r)
+                try:
+                    r.stands_for = spec.stands_for(a, r)
+                except Exception:
+                    r.stands_for = []
             return all(f(a, r, pr, out, exc) for pr, out, exc in r.results if pr.kind == kind)
         return clause
 
@@ -157,7 +175,11 @@ def install(c, spec, checks=(), both=(), once=()):
         r = a.result
         if r.exc is not None:
             return True
-        for s, want in spec.expect(a, r):
+        try:
+            wanted = spec.expect(a, r)
+        except Exception:
+            return False            # the documented image cannot even be located in ir
+        for s, want in wanted:
             for pr, out, exc in r.results:
                 if pr.kind == "node" and pr.stmts[0] is s:
                     if want is INVALID:
@@ -191,7 +213,11 @@ def install(c, spec, checks=(), both=(), once=()):
         r = a.result
         if r.exc is not None:
             return True
-        for olds, news in spec.expect_blocks(a, r):
+        try:
+            wanted = spec.expect_blocks(a, r)
+        except Exception:
+            return False
+        for olds, news in wanted:
             for pr, out, exc in r.results:
                 if pr.kind == "block" and len(pr.stmts) == len(olds) and all(x is y for x, y in zip(pr.stmts, olds)):
                     if exc is not None or not FG.block_resolves(r, out):
@@ -910,7 +936,7 @@ SIMP_NATIVE = ("exo.core.internal_cursors", "exo.frontend.pattern_match", "exo.r
                "exo.core.proc_eqv", "exo.API_cursors", "exo.core.LoopIR_pprint")
 
 
-def simp_world(g):
+def simp_world(g, choose_preds=False):
     w = World(g)
     n = w.nread()
     hi = bop("+", bop("-", bop("*", n, cst(4)), bop("*", n, cst(4))), cst(8))
@@ -922,9 +948,13 @@ def simp_world(g):
               [assign("e0", w.Y, [bop("-", rd(w.I), rd(w.I))]), assign("e1", w.Y, [cst(1)])] if has_else else [])
     lp = for_("lp", w.I, cst(0), hi, [reduce_("b0", w.X, [bop("+", rd(w.I), bop("-", n, n))]), iff,
                                       assign("b1", w.Y, [cst(0)], 2.0)])
-    dead = for_("dead", w.J, cst(2), bop("+", cst(1), cst(1)), [assign("d0", w.W, [cst(0)])])
-    w.preds = [bop(">=", n, bop("+", cst(0), cst(1)))]
-    w.close([lp, dead], g_ctx(g, ("top", "in_for")), npre=1, npost=1)
+    dead = for_("dead", w.J, cst(2), bop("+", bop("-", n, n), cst(2)), [pass_("d0")])
+    # (without a simplifiable assertion the last edit of the pass is the one on the last statement it changes)
+    if not choose_preds or g.choose([True, False], "simplifiable assertion"):
+        w.preds = [bop(">=", n, bop("+", cst(0), cst(1)))]
+    # (index expressions are always rebuilt by the normaliser; the trailing `pass` makes the bound of `dead` the last
+    # edit of the pass at the top level)
+    w.close([lp, dead, pass_("last")], g_ctx(g, ("top", "in_for")), npre=1, npost=0)
     return w
 
 
@@ -936,7 +966,7 @@ def _simp_contract(qualname, cls_name, compose_with_provenance):
 
     @c.inputs
     def _(g):
-        w = simp_world(g)
+        w = simp_world(g, choose_preds=not compose_with_provenance)
         return {"proc": API.Procedure(w.proc), "__ghost__": {"w": w}}
 
     def call(R, fn, a):
@@ -1219,6 +1249,8 @@ def run_nonvacuity(tier="quick", seed=0):
                             failed.append(lab)
             except (PathInfeasible, Unsupported):
                 pass
+            except Exception as e:
+                failed.append(f"native run crashed: {type(e).__name__}")
             finally:
                 set_ctx(old)
         res["bounded"].append(dict(target=cid, bound=f"{tries} random concrete shapes, native run", cases=ok_runs,
@@ -1294,3 +1326,80 @@ def f50_guarded_add_loop(c, model, choices):
     """F50: add_loop(..., guard=True) builds `for k: if k == 0: s` with ONE wrap edit, so every cursor to s (and
     below s) is forwarded one level short: to the new guard, or to a dangling path"""
     return bool(_inputs_of(c, model, choices).get("guard"))
+
+
+# ----------------------------------------------------------------------------
+# further primitives that compose several edits (documentation silent on forwarding: nothing is consumed, every
+# statement is carried over)
+
+dim_contract("DoSetTypAndMem", 1, lambda g, w: [T.f64])        # set_precision: type of the allocation and of every access
+
+
+c_lc = prim("DoLiftConstant")
+
+@c_lc.inputs
+def _(g):
+    w = World(g)
+    two = lambda: FG.fconst(2.0)
+    mul = lambda e: LoopIR.BinOp("*", two(), e, T.f32, FG.ESRC)
+    a0 = assign("a0", w.X, [cst(0)], 0.0)
+    nested = g.choose([False, True], "second reduce in an if")
+    r1 = reduce_("r1", w.X, [cst(0)], mul(rdbuf(w.W, [rd(w.I)])))
+    loop = for_("loop", w.I, w.lit("lo"), w.lit("hi"),
+                [reduce_("r0", w.X, [cst(0)], mul(rdbuf(w.Y, [rd(w.I)]))), assign("u0", w.Z, [cst(3)], 9.0),
+                 if_("cf", w.cond("c"), [r1], [assign("e0", w.Z, [cst(2)], 8.0)]) if nested else r1])
+    w.close([a0, loop], g_ctx(g))
+    return {"assign_c": w.cur(a0), "loop_c": w.cur(loop), "__ghost__": {"w": w, "a0": a0, "loop": loop}}
+
+install(c_lc, Spec(positional("assign_c", "loop_c"), focus=lambda a: [a.ghost.a0, a.ghost.loop],
+                   expect=lambda a, rec: [(s, at_old_path(a, rec, s))
+                                          for s in [a.ghost.a0, a.ghost.loop] + a.ghost.w.old.descendants(a.ghost.loop)]),
+        checks=("Check_ExprEqvInContext",))
+
+
+@_exo_proc
+def _iw(n: size, x: f32[n, 16], y: f32[16], z: f32[8]):
+    assert n > 8
+    z[0] = 0.0
+    z[1] = 1.0
+    win = x[2, 0:16]
+    win[0] = 1.0
+    for i in seq(0, 16):
+        win[i] += y[i]
+        y[i] = win[i]
+    z[2] = 2.0
+    z[3] = 3.0
+
+
+c_iw = prim("DoInlineWindow")
+
+@c_iw.inputs
+def _(g):
+    w = FrontWorld(_iw._loopir_proc, ["pre0", "pre1", "win", "w0", "loop", "l0", "l1", "post0", "post1"])
+    return {"window_cursor": w.cur(w.stmt("win")), "__ghost__": {"w": w}}
+
+install(c_iw, Spec(positional("window_cursor"), focus=lambda a: [a.ghost.w.stmt("win")],
+                   expect=lambda a, rec: [(a.ghost.w.stmt("win"), INVALID)]))
+
+
+c_bc = prim("DoBindConfig")
+c_bc.native_modules.add("exo.core.LoopIR_pprint")
+
+@c_bc.inputs
+def _(g):
+    w = World(g)
+    Sc = Sym("s")
+    w.extra_args = [TG.buf_arg(Sc, [])]
+    st = assign("st", w.X, [cst(0)], LoopIR.BinOp("*", rdbuf(Sc, []), FG.fconst(2.0), T.f32, FG.ESRC))
+    where = g.choose(["block", "in a loop"], "where")
+    focus = [st] if where == "block" else [for_("lp", w.I, w.lit("lo"), w.lit("hi"),
+                                                [assign("l0", w.W, [cst(0)], 3.0), st, assign("l1", w.W, [cst(1)], 4.0)])]
+    w.close(focus, g_ctx(g))
+    from exo.core.configs import Config
+    from exo.core.LoopIR import UAST
+    cfgobj = g.ghost.setdefault("cfgobj", Config("CfgC06", [("a", UAST.F32())], False))
+    ec = w.cur(st)._child_node("rhs")._child_node("lhs")
+    return {"config": cfgobj, "field": "a", "expr_cursor": ec, "__ghost__": {"w": w, "st": st}}
+
+install(c_bc, Spec(positional("config", "field", "expr_cursor"), focus=lambda a: [a.ghost.st]),
+        checks=("Check_DeleteConfigWrite", "Check_Aliasing"))
